@@ -18,7 +18,8 @@ CHECKS = {
         "alphabet two levels deeper, every prefix of every corpus pickle at protocols 0-5 and of every deviation-1 variant (single "
         "opcode deleted / replaced / inserted) of natural pickles, is stepped on CPython's pure-Python unpickler and on fickling's Interpreter; "
         "stack depth, mark positions and memo keys are compared after every opcode, and Trace.run is compared with untraced "
-        "decompilation on every terminal program (fresh interpreter, interpreter that already ran, traced twice). Exhaustive within the bound, which is where stack-effect bugs live (one "
+        "decompilation on every terminal program (fresh interpreter, interpreter that already ran, traced twice, interpreter with its own variable "
+        "numbering, partially stepped interpreter, opcodes after STOP); protocol-5 pickles with out-of-band buffers are stepped against a reference VM given the buffers. Exhaustive within the bound, which is where stack-effect bugs live (one "
         "opcode x one continuation).",
         ref="§3/C09, §2/E1",
         note="Trusted: CPython's pure-Python unpickler as the reference VM; the typing discipline that disables ill-typed mutator "
@@ -28,7 +29,7 @@ CHECKS = {
         level="model_checking",
         technique=E1 + "; terminal oracle: VM import/call event multiset included in the events of the decompiled program run against the same stubs",
         text="Every program over a 29-symbol exec alphabet (3 resolving x 6 call-making opcodes, POP/POP_MARK/DUP/memo traffic) to depth 4/5, "
-        "a 15-symbol core one level deeper, every opcode class of pickletools in every position of length<=3 programs, and the object "
+        "a 15-symbol core one level deeper, an argument-order / same-named-globals alphabet (OBJ, INST, REDUCE over two modules exporting the same name) one level deeper, every opcode class of pickletools in every position of length<=3 programs, and the object "
         "corpus at protocols 0-5 plus all deviation-1 variants of it: the reference VM's import, call and BUILD/__setstate__ events "
         "(callee + argument snapshot at call time) must be a sub-multiset of those of the decompiled source executed under the same stubs, "
         "and a real call may not be rendered through __new__; the resolve-form x call-form x disposal x prefix product of C04 (memo layouts, "
@@ -51,7 +52,7 @@ CHECKS = {
         level="model_checking",
         technique=E1 + "; terminal oracle: canonical value of exec(decompiled) under stubs == canonical value built by the reference VM; plus plain-data round trip",
         text="All programs over a 27-symbol data alphabet to depth 4 (quick) / 6 (thorough, ~12M transitions), aliasing / object-state / "
-        "duplicate-key / memo-layout alphabets two levels deeper, data+object alphabet, full opcode-class pass, object corpus and its "
+        "duplicate-key / memo-layout alphabets two levels deeper, an argument-order / same-named-globals alphabet one level deeper, data+object alphabet, full opcode-class pass, object corpus and its "
         "deviation-1 variants, and ~2-5k plain values x protocols 0-5 x framed/unframed "
         "whose decompiled source must exec to an equal object of the same type.",
         ref="§3/C05",
@@ -91,10 +92,11 @@ CHECKS = {
     "C12": dict(
         level="model_checking",
         technique=E2 + "; explicit lifecycle model of the four pickle bindings and a stack of context snapshots",
-        text="All histories over {arm, activate(), activate(x), remove, construct, enter, leave, leave-by-exception, probe load, probe loads, probe load of a pickle the static analysis passes but the allowlist does not list} with up "
+        text="All histories over {arm, activate(), activate(x), remove, construct, enter, enter-permissive, leave, leave-by-exception, probe load, probe loads, probe load of a pickle the static analysis passes but the allowlist does not list} with up "
         "to 3 open contexts: unmerged to depth 4/6 and merged on (model, classified real bindings, saved bindings of context managers) to depth "
         "6/8. After every step each real binding is classified by identity/closure and compared with the model; probes must not execute a "
-        "flagged pickle while the model says the entry point is protected, and the checked loader must hand the analysed bytes to whatever "
+        "flagged pickle while the model says the entry point is protected (a context that accepts every verdict carries no expectation while it is the "
+        "innermost protection, and must leave nothing behind once exited), and the checked loader must hand the analysed bytes to whatever "
         "pickle.loads is bound to at that moment.",
         ref="§3/C12",
         note="Trusted: the lifecycle model (DESIGN §3/C12); loads under the load-only global check carries no expectation.",
@@ -114,9 +116,10 @@ CHECKS = {
     "C02": dict(
         level="fault_enumeration",
         technique=E3F + ": inputs x arming paths x stream kinds x thresholds, plus a stream whose content flips after the k-th read/seek/tell call for every k",
-        text="23 inputs (one per reachable severity, benign structured values, flagged pickles without any GLOBAL opcode, 11 inputs on which "
-        "parsing/analysis raises while naming a sink call) x "
-        "3 arming paths x 4 stream kinds x 6 thresholds, each executed on the real loader under a find_class audit monitor and a harmless sink; "
+        text="25 inputs (one per reachable severity, benign structured values, flagged pickles without any GLOBAL opcode, pickles with several "
+        "findings of increasing severity, 11 inputs on which parsing/analysis raises while naming a sink call) x "
+        "3 arming paths (each also after a context accepting every verdict was entered and left earlier in the process) x 5 stream kinds "
+        "(incl. a BytesIO positioned behind another pickle) x 6 thresholds, each executed on the real loader under a find_class audit monitor and a harmless sink; "
         "then for each arming path every fault point k of an instrumented stream that swaps benign/malicious content of equal length after "
         "its k-th call (both directions). Returned => verdict <= threshold, value and resolutions equal the stock load of the analysed bytes; "
         "refused => UnsafeFileError with that verdict; every non-return => zero resolutions and empty sink.",
@@ -127,8 +130,8 @@ CHECKS = {
         level="model_checking",
         technique=E3 + " (reference = stopping point of pickletools.genops / the stock unpickler)",
         text="~1.5k (quick) / ~9k pickles (every argument-carrying opcode at 1/2/4/8-byte length boundaries, corpus values and objects at "
-        "protocols 0-5 framed and unframed) x 5 trailers x 7 deliveries (bytes, bytearray, BytesIO at 0 and at an offset, real file, "
-        "non-seekable raw and buffered streams): dumps() must equal the first pickle, the stream must sit right after it and the trailer must "
+        "protocols 0-5 framed and unframed) x 7 trailers (incl. newline-separated pickles) x 11 deliveries (bytes, bytearray, BytesIO at 0 and at an offset, real file, "
+        "r+b / spooled / user-defined seekable streams, non-seekable raw, short-read and buffered streams): dumps() must equal the first pickle, the stream must sit right after it and the trailer must "
         "remain readable; all stacks of 1..3/4 pickles from a 7-element sub-corpus must partition the input.",
         ref="§3/C06",
         note="Trusted: pickletools.genops as the delimiter of the first pickle.",
@@ -137,7 +140,7 @@ CHECKS = {
         level="model_checking",
         technique=E3 + ": base pickles x injection modes x loaders, rewritten bytes really loaded under a sink and a find_class audit monitor",
         text="180 (quick) / ~330 base pickles (fixture objects, shared refs, 300 memo entries, protocols 0-5 framed/unframed, assembler programs using "
-        "the injector's own memo keys) x 15 injection modes x {C unpickler, pure-Python unpickler for unframed}: exactly one injected call with "
+        "the injector's own memo keys) x 21 injection modes x {C unpickler, pure-Python unpickler for unframed}: exactly one injected call with "
         "exactly the arguments, original effects and resolutions preserved in order, return value kept/replaced as documented, VM stack empty at "
         "STOP, single trailing STOP, own verdict not LIKELY_SAFE.",
         ref="§3/C08",
@@ -165,7 +168,7 @@ CHECKS = {
     "C18": dict(
         level="model_checking",
         technique=E3 + ": stacks x targets x flags x input channel through the real CLI in-process",
-        text="All stacks of 1..3/4 pickles over a 5/7-pickle corpus x targets 0..n+1 x --run-last x --replace-result x {file, non-seekable stdin}: "
+        text="All stacks of 1..3/4 pickles over a 9/12-pickle corpus (incl. a member that only encodes with surrogatepass) x targets 0..n+1 x --run-last x --replace-result x {file, non-seekable stdin}: "
         "output must split into n pickles, neighbours byte-identical, target equal to the library injection on that pickle alone, out-of-range "
         "targets fail and emit nothing; plain decompilation must be one valid program binding result0..n-1 to the right values (run under "
         "stubs against the reference VM) with no variable assigned twice.",
@@ -201,8 +204,9 @@ CHECKS = {
     "C16": dict(
         level="model_checking",
         technique=E3 + ": saved objects x payload strings x overwrite, archive members and reloaded model compared",
-        text="23 saved objects (modules, state dicts, nested containers, 5 dtypes x 3 shapes incl. zero-size, shared storages, >255 memo entries) "
-        "x 23-49 payloads x overwrite (with a stale file at the output path), plus a second injection into the same unchanged file: member list and bytes, data.pkl vs the library injection, input sha256, torch.load(weights_only=False) of the result under "
+        text="24 saved objects (modules, state dicts, nested containers, 5 dtypes x 3 shapes incl. zero-size, shared storages, >255 memo entries, a storage above 1 MiB) "
+        "x 26-52 payloads (incl. texts equal to a string of the model pickle) x overwrite (with a stale file at the output path), plus a second injection into the same "
+        "unchanged file and a re-injection into the injected file: member list and bytes, data.pkl vs the library injection, input sha256, torch.load(weights_only=False) of the result under "
         "a sink (payload exactly once, exact text) and tensor/dtype/shape/storage-sharing equality.",
         ref="§3/C16",
         note="Trusted: torch.save/torch.load of this image as writer and reader.",
